@@ -512,6 +512,21 @@ func checkC1(r *mc.Run, files eng.Files, s *streams.Stream, url string, plan map
 		return
 	}
 	isSys := func(e probe.Event) bool { return strings.HasPrefix(e.Flow, "SystemFlow") }
+	// 0. a processor of a (linear) system or user flow of this family runs at most once per
+	// direction for one transaction
+	times := map[string]int{}
+	for _, e := range evs {
+		k := e.Dir + ":" + e.Flow + "/" + e.Key
+		times[k]++
+		if times[k] == 2 {
+			clause := "RAN-TWICE:family-C"
+			if isSys(e) {
+				clause = "SYSTEM-FLOW:ran-twice"
+			}
+			fail(clause, fmt.Sprintf("%s was executed twice for one transaction", k))
+			return
+		}
+	}
 	// 1. request side: system flows first
 	seenUser := false
 	for _, e := range evs {
